@@ -6,7 +6,7 @@ import signal
 
 from . import build
 
-CPU_LIMIT = 20  # seconds of CPU per simulated process (CPU time: independent of load)
+CPU_LIMIT = 60  # seconds of CPU per simulated process (CPU time: independent of load)
 
 
 def plan_text(plan):
